@@ -13,8 +13,8 @@ for d in sorted(glob.glob(os.path.join(V, "seeded", "C*"))):
     log = open(os.path.join(d, "verify.log")).read() if os.path.exists(os.path.join(d, "verify.log")) else ""
     m = re.search(r"demo_with_change_exit=(\d+) demo_without_exit=(\d+) suite_pass=(\d+) suite_fail=(\d+)", log)
     runs = [{"check": c, "exit": int(e), "violation_lines": int(n)} for c, e, n in re.findall(r"check (C\d+) exit=(\d+) (\d+) violation", log)]
-    same = [r for r in runs if r["check"] == sid]
-    meta["property"] = meta.get("property", sid)
+    same = [r for r in runs if r["check"] == sid[:3]]
+    meta["property"] = meta.get("property", sid[:3])
     meta["verification"] = {
         "ran": ["tools/seedverify.sh %s  (apply patch.diff in the agent's scratch worktree, make, run.sh must fail; make -k -j8 check; "
                 "git checkout -- ., make, run.sh must pass; then fresh worktree of /repo HEAD + patch.diff and "
@@ -25,7 +25,7 @@ for d in sorted(glob.glob(os.path.join(V, "seeded", "C*"))):
         "check_runs_in_order": runs,
         "detected_by_same_id_check_first_run": bool(same and same[0]["exit"] == 1),
         "detected_by_same_id_check_now": bool(same and same[-1]["exit"] == 1),
-        "also_detected_by": sorted(set(r["check"] for r in runs if r["check"] != sid and r["exit"] == 1)),
+        "also_detected_by": sorted(set(r["check"] for r in runs if r["check"] != sid[:3] and r["exit"] == 1)),
     }
     json.dump(meta, open(mp, "w"), indent=1)
     v = meta["verification"]
